@@ -284,6 +284,11 @@ func numsFor(ctx string) []int {
 
 // fvalsFor enumerates the FUT values of a shape in one holder: sizes 0..3 for containers; set/absent (and empty
 // message) for singular. idx shifts the benign values so that two holders differ.
+// Deep (thorough tier): containers also come in the sizes whose packed payload / entry count crosses the one-byte
+// length boundary and the small-table thresholds of the library (16, 17, 64, 127, 128, 130 elements; 16, 17, 40
+// map entries).
+var Deep bool
+
 func fvalsFor(sh Shape, idx int) []struct {
 	tag string
 	fv  FVal
@@ -301,7 +306,11 @@ func fvalsFor(sh Shape, idx int) []struct {
 			out = append(out, tf{"empty-message", FVal{One: El{IsMsg: true, Empty: true}}})
 		}
 	case "repeated", "unpacked":
-		for n := 0; n <= 3; n++ {
+		sizes := []int{0, 1, 2, 3}
+		if Deep {
+			sizes = append(sizes, 16, 17, 64, 127, 128, 130)
+		}
+		for _, n := range sizes {
 			var l []El
 			for i := 0; i < n; i++ {
 				l = append(l, BenignEl(sh.K, base+i))
@@ -314,7 +323,11 @@ func fvalsFor(sh Shape, idx int) []struct {
 				tf{"size=2,last-empty", FVal{List: []El{BenignEl(sh.K, base), {IsMsg: true, Empty: true}}}})
 		}
 	case "map":
-		for n := 0; n <= 3; n++ {
+		sizes := []int{0, 1, 2, 3}
+		if Deep && sh.Key != Bool {
+			sizes = append(sizes, 16, 17, 40)
+		}
+		for _, n := range sizes {
 			fv := FVal{Absent: n == 0}
 			for i := 0; i < n; i++ {
 				if sh.Key == Bool && i >= 2 {
@@ -800,6 +813,7 @@ func ScopeGroups(tier string) []string {
 
 // ScopeEnumerate yields the cases of one shared group, simplest first.
 func ScopeEnumerate(tier, group string, yield func(*ConvCase) bool) bool {
+	Deep = tier == "thorough"
 	switch {
 	case strings.HasPrefix(group, "value/"):
 		return valueCases(tier, group, yield)
